@@ -5,6 +5,7 @@ import re
 import proto
 import cli
 import gram
+from cliseq import cli_error
 from core import Case, Line
 from impl import trees, clone
 from props import c03
@@ -52,7 +53,7 @@ def analysis_case(rng):
         for task in ("GapDegree", "PosTags", "SentenceCount"):
             rc, out, err = cli.run_cli(["treeanalysis", src, task] + src_argv(F, opts))
             if rc != 0:
-                got = "ERR:" + (err.strip().split("\n")[-1].split(":")[0] if err.strip() else "?")
+                got = cli_error(err)
             elif task == "GapDegree":
                 m = re.search(r"(\d+) trees, (\d+) nodes", out)
                 per_tree = re.findall(r"Gap degree\s+(\d+):\s+(\d+) trees", out)
@@ -73,7 +74,7 @@ def analysis_case(rng):
                     l = Line("pred", "P.C16.tree", [proto.enc_tree(ts[0]), "0"], note="SentenceCount %s for %d sentences" % (got, len(ts)))
                     l.expect = "sentence-count-%d-expected-got-%s" % (len(ts), got)
                     lines.append(l)
-            lines.append(Line("corr", "analysis_src", [task, F, proto.enc_opts(opts), srcarg], got, canon=canon_err))
+            lines.append(Line("corr", "analysis_src", [task, F, proto.enc_opts(opts), srcarg], got))
     return Case("cli-src:" + F, desc, lines, nontrivial=True)
 
 
@@ -97,14 +98,14 @@ def transitions_case(rng):
         rc, _, err = cli.run_cli(["transitions", src, sc.path("out"), system, "--transform"] + trans + src_argv(F, opts)
                                  + (["--dest-opts", "pos"] if pos else []))
         if rc != 0:
-            got = "ERR"
+            got = cli_error(err)
         else:
             out = sc.read("out").split("\n")
             if out and out[-1] == "":
                 out.pop()
             got = "|".join(proto.enc_s(x) for x in out) if out else "EMPTY"
     lines = [Line("corr", "transitions_src", [F, proto.enc_opts(opts), system, "t" if pos else "f",
-                                              tx.calls_str([(n, {}) for n in trans]), srcarg], got, canon=canon_err)]
+                                              tx.calls_str([(n, {}) for n in trans]), srcarg], got)]
     return Case("cli-src:%s:%s" % (F, system), {"src_format": F, "src_opts": opts, "text": text, "transform": trans, "err": err[-300:] if rc else ""},
                 lines, nontrivial=True)
 
@@ -117,11 +118,11 @@ def grammar_case(rng):
         src = sc.write("src." + F, text)
         rc, _, err = cli.run_cli(["grammar", src, sc.path("g"), gtype, "--dest-format", dest] + src_argv(F, opts))
         if rc != 0:
-            got = "ERR"
+            got = cli_error(err)
         else:
             got = gram.enc_lines(gram.file_lines(sc.path("g." + dest))) + " # " + gram.enc_lines(gram.file_lines(sc.path("g.lex")))
     lines = [Line("corr", "grammar_src", [F, proto.enc_opts(opts), gtype, "-", dest, "f", srcarg], got,
-                  canon=(lambda s: "ERR" if s.startswith("ERR") else gram.canon_line_files(lexfiles=(1,))(s)))]
+                  canon=gram.canon_line_files(lexfiles=(1,)))]
     return Case("cli-src:%s:%s" % (F, gtype), {"src_format": F, "src_opts": opts, "text": text, "dest": dest, "err": err[-300:] if rc else ""},
                 lines, nontrivial=True)
 
@@ -177,9 +178,51 @@ def words_case(rng):
         argv = ["--src-format", Fcli] + ((["--src-opts"] + words) if words else [])
         rc, out, err = cli.run_cli(["treeanalysis", src, "SentenceCount"] + argv)
         m = re.search(r"(\d+) sentences", out)
-        got = m.group(1) if (rc == 0 and m) else "ERR"
-        lines.append(Line("corr", "analysis_words", ["SentenceCount", Fcli, wenc, srcarg], got, canon=canon_err))
+        got = m.group(1) if (rc == 0 and m) else cli_error(err)
+        lines.append(Line("corr", "analysis_words", ["SentenceCount", Fcli, wenc, srcarg], got))
         rc, _, err2 = cli.run_cli(["transform", src, sc.path("dest"), "--dest-format", "export"] + argv)
-        got = proto.enc_s(sc.read("dest")) if rc == 0 else "ERR"
-        lines.append(Line("corr", "convert_words", [Fcli, wenc, "export", "-", "n", srcarg], got, canon=canon_err))
+        got = proto.enc_s(sc.read("dest")) if rc == 0 else cli_error(err2)
+        lines.append(Line("corr", "convert_words", [Fcli, wenc, "export", "-", "n", srcarg], got))
     return Case("cli-words:" + Fcli, {"src_format": Fcli, "words": words, "text": text, "err": (err + err2)[-300:]}, lines, nontrivial=True)
+
+
+DEST_FLAGS = ["gf", "gf_terminals", "mark_heads_marking", "boyd_split_marking", "boyd_split_numbering", "brackets_emptyroot",
+              "brackets_skipdisco", "export_four", "terminals_one", "terminals_pos", "pos_only"]
+
+
+def dest_words_case(rng):
+    """`--dest-opts` as words (TT.outOptsOf): presence of the writers' keys, the separator through str()"""
+    import tx
+    F, ts, text, opts, srcarg = make_source(rng)
+    G = rng.choice(["export", "brackets", "discobrackets", "terminals", "discobrackets", "export"])
+    swords = spell_words(rng, opts)
+    dwords = []
+    for k in rng.sample(DEST_FLAGS, rng.randint(0, 4)):
+        dwords.append(rng.choice([k, k, k + ":0", k + ":x"]))
+    if rng.random() < 0.6 and "gf" not in [w.split(":")[0] for w in dwords]:
+        dwords.append("gf")
+    if rng.random() < 0.5:
+        dwords.append(rng.choice(["gf_separator:#", "gf_separator:=", "gf_separator:7", "gf_separator:007", "gf_separator", "gf_separator:::",
+                                  "gf_separator:-"]))
+        if rng.random() < 0.3:
+            dwords.insert(0, "gf_separator:+")
+    rng.shuffle(dwords) if rng.random() < 0.3 and not any(w.startswith("gf_separator") for w in dwords) else None
+    trans = rng.choice([[], ["negra_mark_heads"], ["root_attach", "negra_mark_heads", "boyd_split"],
+                        ["root_attach", "negra_mark_heads", "boyd_split", "raising"]])
+    if G == "brackets" and F != "brackets":
+        trans = ["root_attach", "negra_mark_heads", "boyd_split", "raising"]
+    with cli.Scratch() as sc:
+        src = sc.write("src." + F, text)
+        argv = ["transform", src, sc.path("dest"), "--src-format", F, "--dest-format", G]
+        if swords:
+            argv += ["--src-opts"] + swords
+        if dwords:
+            argv += ["--dest-opts"] + dwords
+        if trans:
+            argv += ["--trans"] + trans
+        rc, _, err = cli.run_cli(argv)
+        got = proto.enc_s(sc.read("dest")) if rc == 0 else cli_error(err)
+    lines = [Line("corr", "convert_words2", [F, ",".join(proto.enc_s(w) for w in swords), G, ",".join(proto.enc_s(w) for w in dwords), "n",
+                                             tx.calls_str([(n, {}) for n in trans]), srcarg], got)]
+    return Case("cli-dest-words:%s->%s" % (F, G), {"src_format": F, "dest_format": G, "src_words": swords, "dest_words": dwords,
+                                                     "trans": trans, "text": text, "err": err[-300:] if rc else ""}, lines, nontrivial=True)
